@@ -11,7 +11,7 @@ def allCodecs : List Codec := List.flatten [
   fti2Codecs,
   Mpeg.mpegCodecs,
   ch10Codecs,
-  netCodecs
+  NetC.netCodecs
 ]
 def allFuncs : List Func := List.flatten [
   ftiFuncs,
@@ -20,6 +20,6 @@ def allFuncs : List Func := List.flatten [
   searchFuncs,
   Mpeg.mpegFuncs,
   ch10Funcs,
-  netFuncs
+  NetC.netFuncs
 ]
 end Acra.Drv
